@@ -36,7 +36,7 @@ def shards(tier, seed):
         for labels in (["int"] if tier == "quick" else ["int", "str"]):
             out.append({"ln": ln, "nn": nn, "labels": labels, "depth": 2 if tier == "quick" else 3,
                         "seed": 11 + seed})
-    return out
+    return A.heavy_first(out)
 
 
 def _arms(labels):
